@@ -213,10 +213,20 @@ func verifyRun(opts *RunOpts) (*Run, error) {
 			run.Results = append(run.Results, &FuncResult{Name: shortName(k), Key: k, OutOfSubset: "contract not loaded (package missing?)"})
 		}
 	}
-	if opts.Prop == "C19" {
+	if opts.Prop == "C19" || opts.Prop == "C15" {
 		d, notes, err := extractSchemas(opts)
 		if err != nil {
 			return nil, err
+		}
+		if opts.Prop == "C15" {
+			// the supervision property only concerns the node schemas' groups
+			var keep []DumpSchema
+			for _, s := range d.Schemas {
+				if strings.HasSuffix(s.Pkg, "/pkg/node/states") && (s.Name == "SupervisorSchema" || s.Name == "WorkerSchema") {
+					keep = append(keep, s)
+				}
+			}
+			d.Schemas = keep
 		}
 		run.ExtraNotes = append(run.ExtraNotes, notes...)
 		gr, bg := w.groundResults(opts, d)
